@@ -3,4 +3,5 @@ MODULES = {
     'Costs': 'costs',
     'Calendar': 'calendar',
     'ApiPhases': 'api_phases',
+    'Globals': 'globals',
 }
